@@ -14,7 +14,7 @@ from ..common import PY, REPO
 from ..keyenc import unkey
 from ..runner import Check
 from ..subproc import child_env, pmap, run_py
-from ..translate import generate_steps, set_sites
+from ..translate import generate_steps, module_state, set_sites
 
 CHILD = r'''
 import json, os, random, sys, importlib, functools
@@ -139,7 +139,12 @@ for case in job["cases"]:
     out = Path(job["outroot"]) / case["id"]
     out.mkdir(parents=True, exist_ok=True)
     target = out / ("pkg" if case["modular"] else "out.py")
-    src = Path(case["path"]) if case.get("path") else case["text"]
+    # "<PROC>" in a path = a directory of THIS process (histories that rewrite an input file between two calls)
+    for _p, _text in (case.get("prewrite") or {}).items():
+        _q = Path(_p.replace("<PROC>", job["outroot"]))
+        _q.parent.mkdir(parents=True, exist_ok=True)
+        _q.write_text(_text)
+    src = Path(case["path"].replace("<PROC>", job["outroot"])) if case.get("path") else case["text"]
     kw = dict(case["opts"])
     if case.get("formatters") is not None:
         kw["formatters"] = [Formatter(x) for x in case["formatters"]]
@@ -149,6 +154,8 @@ for case in job["cases"]:
     expected_dir = os.path.realpath(str(target if target.is_dir() else target.parent))
     if "enum_field_as_literal" in kw:
         kw["enum_field_as_literal"] = d.LiteralType(kw["enum_field_as_literal"])
+    if "custom_template_dir" in kw:
+        kw["custom_template_dir"] = Path(kw["custom_template_dir"].replace("<PROC>", job["outroot"]))
     for so in ("field_extra_keys", "field_extra_keys_without_x_prefix", "strict_types"):
         if so in kw:
             kw[so] = set(kw[so])
@@ -309,8 +316,10 @@ def make_cases(ck: Check, lab: Lab, n: int) -> list[dict]:
         elif r == 7:   # the same types under ordinary names: shows whatever an earlier run left behind in shared objects
             cases.append({**base, "kind": "plain-types", "opts": {}, "input_file_type": "jsonschema", "text": json.dumps(docgen.json_schema_plain_types(rng))})
         elif r in (8, 11):   # several extension keywords per property + the options that keep them (sets of key names on the way)
-            doc, xopts = detgen.json_schema_extras(rng)
-            cases.append({**base, "kind": "extras", "opts": xopts, "input_file_type": "jsonschema", "text": json.dumps(doc)})
+            # (the option family includes "none of them" and "a strict part of the keys": keywords that must be DROPPED)
+            ift = "openapi" if r == 11 and rng.chance(1, 2) else "jsonschema"
+            doc, xopts = detgen.openapi_extras(rng) if ift == "openapi" else detgen.json_schema_extras(rng)
+            cases.append({**base, "kind": "extras", "opts": xopts, "input_file_type": ift, "text": json.dumps(doc)})
         elif r == 9:   # discriminators: the parser writes the converted property name back into the loaded document
             ift, doc = detgen.discriminator_doc(rng)
             cases.append({**base, "kind": "discriminator", "input_file_type": ift, "text": json.dumps(doc)})
@@ -364,6 +373,9 @@ def twin_of(rng, case: dict, tag: str) -> dict:
         if opts != case["opts"]:
             break
     keep = {k: v for k, v in case["opts"].items() if k.startswith("field_extra_keys") or k == "field_include_all_keys"}
+    if case["kind"] == "extras" and rng.chance(2, 3):   # … and ANOTHER member of the family that keeps extension keywords
+        keep = detgen.extras_option_family(rng, detgen.extension_keys_of(json.loads(case["text"])), keeping_only=True)
+        opts = {k: v for k, v in opts.items() if not (k.startswith("field_extra_keys") or k == "field_include_all_keys")}
     if case["kind"] == "graphql":
         opts = {k: v for k, v in opts.items() if k in ("snake_case_field", "use_title_as_name")}
     model = case["model"] if rng.chance(1, 2) else rng.choice(e2e.MODEL_KINDS)
@@ -556,6 +568,130 @@ def campaign_differential(ck: Check, lab: Lab, n_cases: int, n_fresh: int, seeds
                       "history": history},
                 f"process {bad[0]} (seed={cfgs[bad[0]]['seed']}, listing={cfgs[bad[0]]['listing']}) differs from {ref_name}: {first_diff(outs[ref_name] or {}, outs[bad[0]] or {})}; isolated factor: {factor}",
                 "byte-identical files in every process")
+    camp.wall_s = time.time() - t0
+
+
+# ---------------------------------------------------------------- directed histories: an EARLIER call, then the observed call
+def history_pairs(rng, n: int) -> list[tuple[dict, dict]]:
+    """(earlier call, observed call) pairs of the families in which an earlier call can leave something behind for a later one:
+    (a) extension keywords: the earlier call keeps them (field_include_all_keys / field_extra_keys / …_without_x_prefix), the
+        observed call — on the same document or on another one whose properties carry keywords of the same pool — keeps none, a
+        strict part, or is a member of the family itself; JSON Schema and OpenAPI;
+    (b) an input FILE (or one file of an input directory) rewritten between the two calls: the observed call reads the same
+        path with new content (explicit input type and Auto);
+    (c) the same for the files behind a path-valued OPTION: a template of `custom_template_dir` rewritten between the calls."""
+    pairs = []
+    for i in range(n):
+        model = rng.choice(e2e.MODEL_KINDS)
+        base = {"model": model, "modular": False, "default_formatters": False}
+        if i % 5 == 4:
+            text = json.dumps(docgen.json_schema(rng))
+            tdir = f"<PROC>/tpl/h{i}"
+            shape = {**base, "kind": "rewritten-template", "input_file_type": "jsonschema", "text": text, "opts": {"custom_template_dir": tdir}}
+            e = {**shape, "id": f"h{i}-earlier", "prewrite": {f"{tdir}/{rel}": ("# template revision 1\n" if rel in MODEL_TEMPLATES else "") + body for rel, body in model_templates().items()}}
+            l = {**shape, "id": f"h{i}", "prewrite": {f"{tdir}/{rel}": ("# template revision 2\n" if rel in MODEL_TEMPLATES else "") + body for rel, body in model_templates().items()},
+                 "family": "rewritten-template:" + model}
+        elif i % 5 != 3:
+            ift = "openapi" if i % 5 == 2 else "jsonschema"
+            gen = detgen.openapi_extras if ift == "openapi" else detgen.json_schema_extras
+            doc_e, _ = gen(rng)
+            same_doc = rng.chance(1, 2)
+            doc_l = doc_e if same_doc else gen(rng)[0]
+            opts_e = detgen.extras_option_family(rng, detgen.extension_keys_of(doc_e), keeping_only=True)
+            if i % 3 == 0:   # "keep every keyword" alone: the one member of the family that names no key (stratified)
+                opts_e = {"field_include_all_keys": True}
+            used_l = detgen.extension_keys_of(doc_l)
+            r = rng.below(4)
+            opts_l = {} if r < 2 else dict(rng.choice(OPTION_POOL)) if r == 2 else detgen.extras_option_family(rng, used_l)
+            if opts_l == opts_e and same_doc:
+                opts_l = {}
+            e = {**base, "id": f"h{i}-earlier", "kind": "extras", "opts": opts_e, "input_file_type": ift, "text": json.dumps(doc_e),
+                 "model": model if rng.chance(1, 2) else rng.choice(e2e.MODEL_KINDS)}
+            l = {**base, "id": f"h{i}", "kind": "extras", "opts": opts_l, "input_file_type": ift, "text": json.dumps(doc_l),
+                 "family": "extension-keywords:" + ("same-document" if same_doc else "other-document")}
+        else:
+            a, b = json.dumps(docgen.json_schema(rng)), json.dumps(docgen.json_schema(rng))
+            ift = rng.choice(["jsonschema", "auto"])
+            opts = dict(rng.choice(OPTION_POOL[:8]))
+            if rng.chance(1, 3):   # one file of a directory
+                path, target = f"<PROC>/in/h{i}/schemas", f"<PROC>/in/h{i}/schemas/a.json"
+                other = {f"<PROC>/in/h{i}/schemas/b.json": json.dumps(docgen.json_schema(rng))}
+                shape = {**base, "modular": True, "kind": "rewritten-dir", "input_file_type": ift, "path": path, "opts": opts}
+                fam = "rewritten-input:file-of-directory"
+            else:
+                path = target = f"<PROC>/in/h{i}/schema.json"
+                other = {}
+                shape = {**base, "kind": "rewritten-file", "input_file_type": ift, "path": path, "opts": opts}
+                fam = "rewritten-input:file"
+            e = {**shape, "id": f"h{i}-earlier", "prewrite": {**other, target: a}}
+            l = {**shape, "id": f"h{i}", "prewrite": {**other, target: b}, "family": fam + ":" + ift}
+        pairs.append((e, l))
+    return pairs
+
+
+MODEL_TEMPLATES = ["pydantic/BaseModel.jinja2", "pydantic_v2/BaseModel.jinja2", "dataclass.jinja2", "TypedDict.jinja2", "msgspec.jinja2"]
+
+
+def model_templates() -> dict[str, str]:
+    """the package's own templates (text), by their path below model/template (all of them: templates include each other)"""
+    root = REPO / "src" / "datamodel_code_generator" / "model" / "template"
+    return {str(q.relative_to(root)): q.read_text() for q in sorted(root.rglob("*.jinja2"))}
+
+
+def campaign_history_pairs(ck: Check, lab: Lab, n: int, fresh_each: bool = True) -> None:
+    """`fresh_each`: the reference of every observed call is a process of its own; otherwise (quick tier) the observed calls
+    alone, eight per reference process in reverse order — ANOTHER history; two histories that disagree on a call are a failure
+    of the property either way, and the history kept in the replay is then minimised against a truly fresh process"""
+    camp = ck.campaign("differential: the observed generate() call after an EARLIER call that keeps extension keywords (field_include_all_keys / field_extra_keys / field_extra_keys_without_x_prefix; same and other documents, JSON Schema and OpenAPI) or that read the same input path / the same custom template before it was rewritten, vs the same call in a fresh process -> byte-identical files")
+    t0 = time.time()
+    rng = ck.rng.fork("history-pairs")
+    pairs = history_pairs(rng, n)
+    per = 4
+    batches = [pairs[j: j + per] for j in range(0, len(pairs), per)]
+    cwd = str(lab.root / "w" / "hp")
+    ref_groups = [[l] for _, l in pairs] if fresh_each else [[l for _, l in reversed(pairs[j: j + 8])] for j in range(0, len(pairs), 8)]
+    ref_of = {l["id"]: gi for gi, g in enumerate(ref_groups) for l in g}
+    jobs = [("batch", [strip(x) for pr in b for x in pr]) for b in batches] + [("fresh", [strip(l) for l in g]) for g in ref_groups]
+    res = pmap(lambda jb: lab.run("hp-" + jb[0], jb[1], seed=0, cwd=cwd, listing="sorted"), jobs)
+    for jb, r in zip(jobs, res):
+        if "crash" in r:
+            ck.infra_errors.append(f"history-pair child ({jb[0]}) crashed: {r['crash']}")
+    if ck.infra_errors:
+        return
+    for i, (e, l) in enumerate(pairs):
+        bi = i // per
+        got = res[bi]["results"].get(l["id"])
+        ref = res[len(batches) + ref_of[l["id"]]]["results"].get(l["id"])
+        camp.evaluations += 2
+        camp.hit("family:" + l["family"])
+        for o in (e["opts"], l["opts"]):
+            for kx in ("field_include_all_keys", "field_extra_keys", "field_extra_keys_without_x_prefix"):
+                if kx in o:
+                    camp.hit(("earlier:" if o is e["opts"] else "observed:") + kx)
+        if not any(kx.startswith("field_") for kx in l["opts"]):
+            camp.hit("observed:no-extension-keyword-option")
+        if outcome(ref).startswith("files:") and ref["files"]:
+            camp.distinct.add(l["id"])
+        else:
+            camp.hit("generator-error:" + outcome(ref)[6:40])
+        if outcome(got) == outcome(ref):
+            if len(camp.samples) < 3:
+                camp.samples.append({"earlier": {kx: e[kx] for kx in ("opts", "input_file_type", "model")}, "observed": {kx: l[kx] for kx in ("opts", "input_file_type", "model", "family")}, "identical": True})
+            continue
+        budget = "history_diagnosed:" + l["family"].split(":")[0]   # per family: a known finding of one does not hide another
+        if ck.notes.get(budget, 0) >= (1 if l["kind"] == "rewritten-template" else 2):
+            camp.hit("further-mismatch-not-diagnosed:" + l["family"].split(":")[0])
+            continue
+        ck.notes[budget] = ck.notes.get(budget, 0) + 1
+        prefix = [strip(x) for pr in batches[bi] for x in pr]
+        prefix = prefix[: [x["id"] for x in prefix].index(l["id"])]
+        g = [strip(x) for x in ref_groups[ref_of[l["id"]]]]
+        history = minimise_history(lab, strip(l), [prefix, g[: [x["id"] for x in g].index(l["id"])]]) or prefix
+        ck.fail({"oracle": "differential", "entry": "generate", "factor": "history", "input": l["kind"], "same_basename": False,
+                 "input_file_type": l["input_file_type"], "mixed_types": False, "family": l["family"].split(":")[0]},
+                {"kind": "differential", "case": strip(l), "dir_files": None, "history": history},
+                f"after {len(history)} earlier call(s) in the same interpreter (the last one with options {history[-1]['opts']}) the call differs from the same call in a fresh process: {first_diff(ref or {}, got or {})}",
+                "byte-identical files whatever was generated earlier in the process")
     camp.wall_s = time.time() - t0
 
 
@@ -775,7 +911,7 @@ def campaign_main_history(ck: Check, lab: Lab) -> None:
 def search(ck: Check) -> None:
     """a table obligation broke: name the unjustified sites, then run a larger differential campaign"""
     try:
-        for what in ("sites", "cache", "state", "writes", "returns", "listing", "cwd"):
+        for what in ("sites", "cache", "state", "writes", "returns", "listing", "cwd", "aliases", "cachereads"):
             rep = ck.driver.run([f"det.refute {what}"])[0]
             if rep.startswith("ok "):
                 groups = rep[3:].replace("(", "").split(")")
@@ -794,6 +930,8 @@ def search(ck: Check) -> None:
         # `with chdir(output)` -> many more cases x project directories; then the general differential campaign
         if any(k in ck.notes for k in ("unjustified_cwd", "formatting_not_in_output_directory")) or ck.disagreements:
             campaign_projects(ck, lab, 60, 8)
+        if not ck.failures:   # a new alias of a module-level object / a new cache: what an EARLIER call leaves behind
+            campaign_history_pairs(ck, lab, 100)
         if not ck.failures:
             campaign_differential(ck, lab, 150, 6, [0, 1, 2, 3, 4, 5, "random", 7])
         if not ck.failures:
@@ -824,6 +962,9 @@ def rerun(ck: Check, inp: dict) -> None:
             if inp.get("dir_files"):
                 c["path"] = lab.write_dir(c["id"], inp["dir_files"])
             runs = [dict(seed=s, cwd=str(lab.root / "w" / f"r{s}"), listing=l) for s, l in ((0, "sorted"), (1, "reverse"), (2, "shuffle-2"), (3, "shuffle-3"))]
+            if inp.get("history"):   # fresh, after the history under the same seed and listing order, after the history under others
+                runs = [dict(seed=0, cwd=str(lab.root / "w" / "r0"), listing="sorted"), dict(seed="0", cwd=str(lab.root / "w" / "r0"), listing="sorted"),
+                        dict(seed=1, cwd=str(lab.root / "w" / "r1"), listing="reverse")]
             noise = noise_cases(ck.rng.fork("replay"), 6, "r")
             if inp.get("history"):   # the recorded earlier calls of the failing process (same text, other options, …)
                 noise = [dict(h, path=c["path"]) if h.get("path") and c.get("path") else h for h in inp["history"]]
@@ -831,7 +972,8 @@ def rerun(ck: Check, inp: dict) -> None:
             keys = [outcome(r.get("results", {}).get(c["id"])) for r in res]
             camp.evaluations += len(keys)
             if len(set(keys)) > 1:
-                ck.fail({"oracle": "differential", "entry": "generate", "factor": diagnose(lab, c, {}), "input": c.get("kind"), "same_basename": bool(c.get("same_basename")),
+                factor = "history" if inp.get("history") and keys[0] != keys[1] else diagnose(lab, c, {})
+                ck.fail({"oracle": "differential", "entry": "generate", "factor": factor, "input": c.get("kind"), "same_basename": bool(c.get("same_basename")),
                          "input_file_type": c.get("input_file_type"), "mixed_types": bool(c.get("mixed_types"))},
                         inp, "outputs differ between processes: " + first_diff(res[0]["results"][c["id"]], next(r["results"][c["id"]] for r, kx in zip(res, keys) if kx != keys[0])))
     finally:
@@ -851,6 +993,7 @@ def run(ck: Check) -> None:
     quick = ck.tier == "quick"
     ck.translate("SetSites", set_sites.generate())
     ck.translate("GenerateSteps", generate_steps.generate())
+    ck.translate("ModuleState", module_state.generate())
     ck.prove()
     ck.assumptions += [
         "PARTIAL CLAIM: the theorems are about the abstraction (sets as lists up to permutation, a memo table, a stable sort); "
@@ -871,6 +1014,7 @@ def run(ck: Check) -> None:
     lab = Lab()
     try:
         campaign_listing_corpus(ck, lab)
+        campaign_history_pairs(ck, lab, 16 if quick else 100, fresh_each=not quick)
         campaign_differential(ck, lab, 60 if quick else 400, 6 if quick else 24, [0, 1, 2, 3] if quick else [0, 1, 2, 3, 4, 5, "random", 7])
         campaign_projects(ck, lab, 16 if quick else 90, 5 if quick else 12)
         campaign_main_history(ck, lab)
